@@ -100,3 +100,34 @@ func (n *RNode) HasContent(local string) bool {
 	}
 	return false
 }
+
+// AsciiCerts: certificate texts are compared modulo white space; the model's notion of white space is the ASCII one
+func (n *RNode) AsciiCerts() bool {
+	if n.Local == "X509Certificate" {
+		for _, k := range n.Kids {
+			if s, ok := k.(string); ok {
+				for i := 0; i < len(s); i++ {
+					if s[i] >= 0x80 {
+						return false
+					}
+				}
+			}
+		}
+	}
+	for _, k := range n.Kids {
+		if c, ok := k.(*RNode); ok && !c.AsciiCerts() {
+			return false
+		}
+	}
+	return true
+}
+
+// DocTreeTerm is the Coq term "(Some (trailing, tree))" for a payload the library's decoder parses, or "None" when the
+// payload is outside what the model of Unmarshal covers (not tokenisable, raw inner XML, non-ASCII certificate text)
+func DocTreeTerm(data []byte) string {
+	root, trailing, err := ResolvedTree(data)
+	if err != nil || root.HasContent("BaseID") || !root.AsciiCerts() {
+		return "None"
+	}
+	return fmt.Sprintf("(Some (%s, %s))", coqgen.Bool(trailing), root.Coq())
+}
